@@ -122,7 +122,7 @@ def gen_source(rng, omegas, allow_same=True):
     if r < 0.45:
         k = rng.choice([0, 0, 1, -1, 2])
         return 'ac %s %s %s' % (fs(A), PHI[k], fs(w)), {'form': 'ac', 'A': str(A), 'k': k, 'w': str(w)}
-    n = 1 if r < 0.8 else 2
+    n = 1 if (r < 0.8 or len(omegas) < 2) else 2
     terms = []
     used = []
     for _ in range(n):
@@ -220,6 +220,11 @@ CORPUS = [
     # two terms of the same frequency inside one t-domain source
     {'netlist': ['V1 1 0 {3*cos(2*t) + sin(2*t)}', 'R1 1 2 2', 'C1 2 0 {1/3}'],
      'src': [{'name': 'V1', 'prefix': 'V1 1 0', 'desc': {'form': 't', 'terms': [{'f': 'cos', 'A': '3', 'k': 0, 'w': '2'}, {'f': 'sin', 'A': '1', 'k': 0, 'w': '2'}]}}]},
+    # a voltage source directly across the input port of transfer(): the ladder-network shortcut kills (shorts) it
+    {'netlist': ['V1 0 1 ac 4 0 2', 'C1 2 0 9', 'R1 2 3 8', 'C2 2 3 {1/3}', 'I1 2 3 ac 1 0 2', 'C3 3 2 8'],
+     'src': [{'name': 'V1', 'prefix': 'V1 0 1', 'desc': {'form': 'ac', 'A': '4', 'k': 0, 'w': '2'}},
+             {'name': 'I1', 'prefix': 'I1 2 3', 'desc': {'form': 'ac', 'A': '1', 'k': 0, 'w': '2'}}],
+     'transfer': ['0', '1', '2', '0'], 'transfer_src': 'V1', 'transfer_elt': 'C1'},
 ]
 for _c in CORPUS:
     _c.setdefault('tags', ['corpus'])
@@ -660,11 +665,13 @@ def build_checks(ci, case, wr, tr, res):
         # --- (iii) public transfer function
         if isinstance(ad.get('transfer'), str) and ad.get('transfer_s'):
             u = [x for x in ad.get('unit', []) if x['name'] == case.get('transfer_src') and 'error' not in x]
-            checks.append((tag + '/transfer_eval', None, 'qci_eqb %s %s' % (gq(ad['transfer']), gq(ad['transfer_s']))))
+            lad = '@ladder' if ad.get('transfer_ladder') else ''
+            res.count('transfer_route_' + ('ladder' if lad else 'generic'))
+            checks.append((tag + '/transfer_eval' + lad, None, 'qci_eqb %s %s' % (gq(ad['transfer']), gq(ad['transfer_s']))))
             if u and u[0]['V'].get(case['transfer_elt']) is not None:
-                checks.append((tag + '/transfer_unit', None, 'qci_eqb %s %s' % (gq(ad['transfer']), gq(u[0]['V'][case['transfer_elt']]))))
+                checks.append((tag + '/transfer_unit' + lad, None, 'qci_eqb %s %s' % (gq(ad['transfer']), gq(u[0]['V'][case['transfer_elt']]))))
             if len(ad.get('unit', [])) == 1 and u and isinstance(ad['V'].get(case['transfer_elt']), str):
-                checks.append((tag + '/transfer_phasor', None, 'qci_eqb (cimul %s (src_P %s %s)) %s' % (
+                checks.append((tag + '/transfer_phasor' + lad, None, 'qci_eqb (cimul %s (src_P %s %s)) %s' % (
                     gq(ad['transfer']), wl, desc_lit(srcdesc[case['transfer_src']]), gq(ad['V'][case['transfer_elt']]))))
         elif 'transfer' in case:
             res.count('transfer_unavailable')
@@ -886,6 +893,22 @@ def run(tier='quick', replay=None):
                     continue
                 res.count('oracle_evaluated')
                 oV, oI = o
+                # transfer function through the oracle: only the input source active, at unit value
+                if isinstance(ad.get('transfer'), str) and case.get('transfer_src'):
+                    uc = dict(case)
+                    uc['src'] = [dict(s_, P={wkey: ['1', '0'] if s_['name'] == case['transfer_src'] else ['0', '0']}) for s_ in case['src']]
+                    try:
+                        ou = oracle_solve(uc, wkey)
+                    except Exception:
+                        ou = None
+                    if ou is not None and case['transfer_elt'] in ou[0]:
+                        hv = ou[0][case['transfer_elt']]
+                        tr_, ti_ = gpair(ad['transfer'])
+                        res.count('oracle_transfer_evaluated')
+                        if not (hv.r == tr_ and hv.i == ti_):
+                            res.counterexamples.append({'case': case, 'omega': wkey, 'ladder': bool(ad.get('transfer_ladder')),
+                                                        'what': 'transfer(%s)(j*%s)' % (','.join(case['transfer']), wkey),
+                                                        'reported': ad['transfer'], 'expected': '%s,%s' % (hv.r, hv.i)})
                 for attr, od in (('V', oV), ('I', oI)):
                     for nm, val in od.items():
                         rep = ad.get(attr, {}).get(nm)
@@ -971,14 +994,18 @@ def run(tier='quick', replay=None):
         # ---- decide ----------------------------------------------------------------------
         seen = set()
 
-        def fingerprint(case):
+        def fingerprint(case, what='', ladder=False):
             if case.get('mode') == 'phasor':
                 return 'phasor-roundtrip'
+            if what.startswith('transfer') and ladder:
+                return 'NetlistOpsMixin.transfer:ladder-shortcut'
+            if what.startswith('transfer'):
+                return None
             if has_same_omega_terms(case):
                 return 'tdomain-source:same-omega-terms'
             return None
         for ce in res.counterexamples:
-            fp = fingerprint(ce['case'])
+            fp = fingerprint(ce['case'], ce.get('what', ''), ce.get('ladder', False))
             key = fp or ('oracle:' + re.sub(r'[0-9/]+', '#', ce['what'])[:50])
             if key in seen:
                 continue
@@ -987,8 +1014,8 @@ def run(tier='quick', replay=None):
                 ce['what'], ce.get('reported'), ce.get('expected')), 'case': ce['case'], 'found_input': True})
         have_input = bool(res.counterexamples)
         for d in res.disagreements:
-            fp = fingerprint(d['case']) if d['case'].get('mode') != 'phasor' else None
             kind_of = d['check'].split('/')[-1].split('_')[0] if not d['check'].startswith('phasor/') else 'phasor'
+            fp = fingerprint(d['case'], kind_of, d['check'].endswith('@ladder')) if d['case'].get('mode') != 'phasor' else None
             key = fp or ('correspondence:' + kind_of)
             if key in seen:
                 continue
